@@ -1,1 +1,6 @@
 import ShroudVerif.Props.C13
+import ShroudVerif.Props.C07
+import ShroudVerif.Props.C10
+import ShroudVerif.Props.C08
+import ShroudVerif.Props.C12
+import ShroudVerif.Props.C15
